@@ -36,7 +36,7 @@ func (c *Ctx) execNext(fr *Frame, x *ssa.Next, st *State, reach string) {
 	c.assume(reach, fmt.Sprintf("(=> %s (and (not (= %s 0)) (select (select %s %s) %s)))", ok, it.T, h, it.T, k))
 	c.assume(reach, implies(ok, c.typeFact(k, mt.Key(), st, 1)))
 	c.assume(reach, implies(ok, c.typeFact(v, mt.Elem(), st, 1)))
-	c.wfRead(and(reach, ok), v, mt.Elem(), st)
+	c.wfMapRead(and(reach, ok), v, mt, st)
 	fr.vals[x] = Val{Tup: []Val{{T: ok, Typ: types.Typ[types.Bool]}, {T: k, Typ: mt.Key()}, {T: v, Typ: mt.Elem()}}, Typ: x.Type()}
 }
 
@@ -537,7 +537,8 @@ func (c *Ctx) applyContract(fr *Frame, st *State, reach, name string, pos token.
 		c.assume(reach, tv.T)
 	}
 	// function-typed parameters with a contract: what is passed must honour it
-	for pname, ps := range con.Params {
+	for _, pname := range sortedKeys(con.Params) {
+		ps := con.Params[pname]
 		if ps.Assigns != "nothing" {
 			continue
 		}
@@ -897,6 +898,20 @@ func (c *Ctx) execAppend(fr *Frame, st *State, reach, name string, pos token.Pos
 	if !isStr {
 		c.assume(reach, fmt.Sprintf("(forall ((%s Int)) (! (=> (and (<= 0 %s) (< %s %s)) (= (select %s (+ (s_off %s) (s_len %s) %s)) (select (select %s (s_arr %s)) (+ (s_off %s) %s)))) :pattern ((select %s (+ (s_off %s) (s_len %s) %s)))))",
 			k, k, k, n, na, res, s, k, a, xs, xs, k, na, res, s, k))
+	}
+	// appends of a short literal list (the common `append(s, x)`): the new elements as ground facts, so that
+	// proofs do not depend on instantiating the quantified fact above modulo arithmetic
+	if !isStr {
+		if sv, ok := cc.Args[1].(*ssa.Slice); ok {
+			if al, ok := sv.X.(*ssa.Alloc); ok {
+				if at, ok := al.Type().(*types.Pointer).Elem().Underlying().(*types.Array); ok && at.Len() <= 4 {
+					for j := int64(0); j < at.Len(); j++ {
+						c.assume(reach, fmt.Sprintf("(= (select %s (+ (s_off %s) (s_len %s) %d)) (select (select %s (s_arr %s)) (+ (s_off %s) %d)))",
+							na, res, s, j, a, xs, xs, j))
+					}
+				}
+			}
+		}
 	}
 	// in place: everything outside the appended window is unchanged
 	c.assume(reach, fmt.Sprintf("(=> %s (forall ((%s Int)) (! (=> (or (< %s (+ (s_off %s) (s_len %s))) (>= %s (+ (s_off %s) %s))) (= (select %s %s) (select (select %s (s_arr %s)) %s))) :pattern ((select %s %s)))))",
